@@ -174,13 +174,16 @@ def ecs_of(cidr_or_tuple):
     """('10.1.2.3', 20) -> abstract ECS (address may carry host bits)"""
     a, plen = cidr_or_tuple
     f, b = ip16(a)
-    return {"present": True, "f": f, "b": b, "len": plen + (96 if f == 4 else 0)}
+    n = plen + (96 if f == 4 else 0)
+    v = int.from_bytes(bytes(b), "big")
+    v &= ~((1 << (128 - n)) - 1)                       # the subnet: bits beyond the source prefix do not belong to it
+    return {"present": True, "f": f, "b": list(v.to_bytes(16, "big")), "len": n}
 
 
 NOECS = {"present": False, "f": 0, "b": [], "len": 0}
 
 
-def query(qname, qtype, rip, ecs=None, edns=None, maxans=1, exact=False, cmp=False, qclass=1, upper=False):
+def query(qname, qtype, rip, ecs=None, edns=None, maxans=1, exact=False, cmp=False, qclass=1, upper=False, rawecs=False):
     """returns (abstract q, concrete fields for the driver)"""
     e = ecs_of(ecs) if ecs else dict(NOECS)
     ed = bool(ecs) or bool(edns)
@@ -192,6 +195,11 @@ def query(qname, qtype, rip, ecs=None, edns=None, maxans=1, exact=False, cmp=Fal
     c = {"name": text, "type": qtype, "class": qclass, "rip": rip, "edns": ed, "maxans": maxans}
     if ecs:
         c["ecs"] = {"f": 1 if e["f"] == 4 else 2, "len": ecs[1], "addr": ecs[0], "scope": 0}
+        if rawecs:
+            # address bytes as they go on the wire: truncated to the source length, host bits of the last byte kept
+            full = ip16(ecs[0])[1]
+            fam_bytes = full[12:] if e["f"] == 4 else full
+            c["ecs"]["raw"] = fam_bytes[:(ecs[1] + 7) // 8]
     return q, c
 
 
